@@ -530,9 +530,9 @@ def sigkill_conformance(task):
                 if m == k:
                     break
         # temporary file names are random per process: compare modulo them
-        tmp = re.compile(r"\.tmp-[0-9a-zA-Z_-]+$")
-        got = {tmp.sub(".tmp-X", k): v for k, v in got.items()}
-        snap = {tmp.sub(".tmp-X", k): v for k, v in snap.items()}
+        tmp = re.compile(r"[0-9a-f]{32}")
+        got = {tmp.sub("UUID", k): v for k, v in got.items()}
+        snap = {tmp.sub("UUID", k): v for k, v in snap.items()}
         if fsseam.snap_hash(got) != fsseam.snap_hash(snap):
             mismatch.append("%s/%s kill at op %d: real tree differs from the "
                             "materialised state" % (name, wl, k))
@@ -578,12 +578,12 @@ def run(ctx):
     for r in ctx.map_unordered("sigkill_conformance", ctasks):
         checked += r["checked"]
         mism += r["mismatch"]
-    if mism:
+    if mism and not ctx.violations:
         raise core.HarnessError("SIGKILL conformance: " + "; ".join(mism[:3]))
     ctx.coverage_extra.update({
         "workloads": len(plan), "mutation_ops_recorded": nops,
         "second_crash_states": p4, "cut_level": level,
-        "sigkill_conformance": {"kills": checked, "mismatches": 0},
+        "sigkill_conformance": {"kills": checked, "mismatches": len(mism)},
     })
 
 
